@@ -164,7 +164,7 @@ def check_status_case(rep, kind, st, ext, out, six_rule, sig):
                 probs.append(("empty-error", f"general status {st:#04x}: falsy result without an error text: {out!r:.100}"))
             elif out[0] == "ok" and sig != "helper" and not status_text_ok(err, st, ext):
                 probs.append(("error-text", f"general status {st:#04x} ext {[hex(x) for x in ext]}: error {err!r:.100} does not name the status"))
-    rep.case((kind, st, tuple(ext)), outcome="ok" if not probs else probs[0][0])
+    rep.case((kind, st, tuple(ext)), outcome=("ok:" + ("success" if ok else "falsy" if out[0] == "ok" else "library-exception")) if not probs else probs[0][0])
     for clause, detail in probs:
         cls = "status0" if st == 0 else "status6" if st == 6 else "error-status"
         rep.violation(f"{sig}/{kind}/{clause}/{cls}/ext{len(ext)}", f"{kind}: {detail}", {"kind": "status", "req": kind, "status": st, "ext": list(ext)})
@@ -455,7 +455,7 @@ def run_mutate(rep, kind, tier):
         elif m[0] == "trunc" and m[1] <= stoff and result_ok(out) and kind not in ("forward-close", "forward-open", "list-identity"):
             # (a refused/unreadable Forward Open is legitimately retried with the standard service; close() and list-identity have no success value)
             probs.append(("short-reply-accepted", f"reply cut to {m[1]} bytes (last status byte at offset {stoff}) reported as success: {out!r:.100}"))
-        rep.case((kind, m), outcome="ok" if not probs else probs[0][0])
+        rep.case((kind, m), outcome=("ok:" + ("success" if result_ok(out) else "falsy" if out[0] == "ok" else "library-exception")) if not probs else probs[0][0])
         for clause, detail in probs:
             where = "header" if (m[1] < 24) else "cpf" if m[1] < 44 else "cip"
             rep.violation(f"mutation/{kind}/{clause}/{m[0]}/{where}", f"{kind}: reply {'truncated to' if m[0] == 'trunc' else 'byte substituted at'} {m[1:]}: {detail}", {"kind": "mutate", "req": kind, "mut": list(m)})
